@@ -303,15 +303,20 @@ CHECKS = {
         "text": "Deductive core + bounded stand-in. Proved for all inputs (unbounded), over abstract XML elements: "
                 "_parse_psm - a hit is labelled a decoy exactly when EVERY one of its proteins (primary and "
                 "alternative, first token) carries the decoy prefix; the protein list starts with the primary "
-                "accession and contains the accession of every alternative_protein element and nothing else. The "
-                "modification insertion (string surgery with a running offset) is abstracted in the proof; it, the "
+                "accession and contains the accession of every alternative_protein element and nothing else; "
+                "_parse_psm#mods (block contract over character sequences) - for modifications listed at ascending "
+                "positions inside the peptide, '[' mass ']' of every modification stands directly after its "
+                "residue, all residues are kept in place between the brackets and the length grows by exactly the "
+                "brackets (running-offset bookkeeping). The "
                 "nested generators over runs / spectra / hits, the spectrum attributes, the feature post-processing "
                 "and the rejection of Percolator / non-PepXML input are decided by the bounded run on generated "
                 "documents.",
         "design_ref": "DESIGN.md 4.C20",
         "note": "lxml get/iter as assumed contracts; the PSM dict is a record (a search score named like a reserved "
-                "key is assumed not to occur); strings abstract",
-        "technique": "sidecar contract with loop invariant over an element sequence and record fields; z3/cvc5; "
+                "key is assumed not to occur); strings abstract, in #mods a string is its character sequence and the "
+                "positions are ascending and within the peptide (the property's domain)",
+        "technique": "sidecar contracts with loop invariants over an element sequence, record fields and ghost "
+                     "offsets; z3/cvc5; "
                      "generated PepXML documents as bounded stand-in",
     },
     "C18": {
